@@ -316,3 +316,24 @@ M("C16", "V", "fabricated empty result when the child died", STDIO, "        els
 M("C16", "B", "logging reordered", STDIO, "                logger.debug(\"Terminating subprocess…\")\n                self.process.terminate()\n", "                self.process.terminate()\n                logger.debug(\"Terminating subprocess…\")\n")
 M("C16", "B", "shield around the finally's if", STDIO, "            if self.process and self.process.returncode is None:\n                with anyio.CancelScope(shield=True):\n                    try:\n                        await self._terminate_process()\n                    except Exception as e:\n                        logger.debug(f\"Error during stdio client shutdown: {e}\")\n",
   "            with anyio.CancelScope(shield=True):\n                if self.process and self.process.returncode is None:\n                    try:\n                        await self._terminate_process()\n                    except Exception as e:\n                        logger.debug(f\"Error during stdio client shutdown: {e}\")\n")
+
+# ------------------------------------------------------------------------------ C02
+M("C02", "V", "synthesised dict loses jsonrpc version", HTTP, "                            \"jsonrpc\": \"2.0\",\n                            \"id\": message_id,\n                            \"error\": {\n                                \"code\": -32603,\n                                \"message\": f\"HTTP {response.status_code}: {error_text}\",",
+  "                            \"jsonrpc\": \"2\",\n                            \"id\": message_id,\n                            \"error\": {\n                                \"code\": -32603,\n                                \"message\": f\"HTTP {response.status_code}: {error_text}\",", "R2")
+M("C02", "V", "string error code", HTTP, "                                \"error\": {\"code\": -32700, \"message\": \"Parse error\"},\n", "                                \"error\": {\"code\": \"-32700\", \"message\": \"Parse error\"},\n", "R2")
+M("C02", "V", "result and error together", ELICIT, "                \"error\": {\"code\": -32603, \"message\": f\"Elicitation error: {str(e)}\"},\n", "                \"result\": {},\n                \"error\": {\"code\": -32603, \"message\": f\"Elicitation error: {str(e)}\"},\n", "R2")
+M("C02", "V", "error message not a string", BATCH, "                        \"message\": f\"Internal error processing batch item: {str(e)}\",\n", "                        \"message\": e,\n", "R2")
+M("C02", "V", "exclude_none dropped at the sse serialiser", SSE, "message.model_dump(exclude_none=True)", "message.model_dump()", "R4")
+M("C02", "V", "parser cascade arms swapped", JSONRPC, "    if has_method and has_id:\n        # Request\n        return JSONRPCRequest.model_validate(data)\n    elif has_method and not has_id:\n        # Notification\n        return JSONRPCNotification.model_validate(data)\n    elif has_id and has_result and not has_error:\n        # Success response\n        return JSONRPCResponse.model_validate(data)\n    elif has_id and has_error and not has_result:\n        # Error response\n        return JSONRPCError.model_validate(data)\n",
+  "    if has_method and has_id:\n        # Request\n        return JSONRPCRequest.model_validate(data)\n    elif has_method and not has_id:\n        # Notification\n        return JSONRPCNotification.model_validate(data)\n    elif has_id and has_error and not has_result:\n        # Success response\n        return JSONRPCResponse.model_validate(data)\n    elif has_id and has_result and not has_error:\n        # Error response\n        return JSONRPCError.model_validate(data)\n", "R3")
+M("C02", "V", "legacy class accepts result together with error", JSONRPC, "            if self.result is not None and self.error is not None:\n                raise ValueError(\"Response cannot have both result and error\")\n", "", "R3")
+M("C02", "V", "is_notification ignores the id", JSONRPC, "        return self.method is not None and self.id is None\n", "        return self.method is not None\n", "R3")
+M("C02", "V", "Optional id on the request class", JSONRPC, "class JSONRPCRequest(McpPydanticBase):\n    \"\"\"A request that expects a response.\"\"\"\n\n    jsonrpc: Literal[\"2.0\"] = \"2.0\"\n    id: RequestId\n", "class JSONRPCRequest(McpPydanticBase):\n    \"\"\"A request that expects a response.\"\"\"\n\n    jsonrpc: Literal[\"2.0\"] = \"2.0\"\n    id: Optional[RequestId] = None\n", "R1")
+M("C02", "V", "notification class gains an id", JSONRPC, "class JSONRPCNotification(McpPydanticBase):\n    \"\"\"A notification which does not expect a response.\"\"\"\n\n    jsonrpc: Literal[\"2.0\"] = \"2.0\"\n", "class JSONRPCNotification(McpPydanticBase):\n    \"\"\"A notification which does not expect a response.\"\"\"\n\n    jsonrpc: Literal[\"2.0\"] = \"2.0\"\n    id: Optional[RequestId] = None\n", "R1")
+M("C02", "V", "error class stops checking the code type", JSONRPC, "            if \"code\" not in self.error or not isinstance(self.error[\"code\"], int):\n                raise ValueError(\"Error must have an integer 'code' field\")\n", "", "R1")
+M("C02", "V", "success response fabricated for notifications too", HTTP, "                                # For notifications, this is fine\n                                if not message_id:\n                                    return\n", "", "R2")
+M("C02", "V", "float ids allowed", JSONRPC, "RequestId = Union[int, str]\n", "RequestId = Union[int, str, float]\n", "R1")
+M("C02", "V", "elicitation request built with id=None", ELICIT, "            \"id\": request_id,\n            \"params\": params.model_dump(exclude_none=True, by_alias=True),", "            \"id\": None,\n            \"params\": params.model_dump(exclude_none=True, by_alias=True),", "R2")
+M("C02", "B", "dict keys reordered", HTTP, "                                \"jsonrpc\": \"2.0\",\n                                \"id\": message_id,\n                                \"error\": {\"code\": -32700, \"message\": \"Parse error\"},\n", "                                \"id\": message_id,\n                                \"jsonrpc\": \"2.0\",\n                                \"error\": {\"message\": \"Parse error\", \"code\": -32700},\n")
+M("C02", "B", "named code constant", HTTP, "                                \"error\": {\"code\": -32700, \"message\": \"Parse error\"},\n", "                                \"error\": {\"code\": PARSE_ERROR_CODE, \"message\": \"Parse error\"},\n",
+  more=[(HTTP, "logger = logging.getLogger(__name__)\n", "logger = logging.getLogger(__name__)\nPARSE_ERROR_CODE = -32700\n")])
